@@ -1,7 +1,8 @@
 """symbolic reaction fixtures shared by C04/C08/C09: species are uninterpreted
 objects, stoichiometric coefficients are atoms."""
 from ..nf import Rat, C
-from ..xlate import Obj, ListV, DictV
+from ..source import Unsupported
+from ..xlate import Obj, ListV, DictV, Raised, Frame
 from .common import opaque_obj
 
 SPECIES_METHODS = ('get_q', 'get_CvoR', 'get_CpoR', 'get_UoRT', 'get_HoRT', 'get_SoR', 'get_FoRT', 'get_GoRT',
@@ -18,23 +19,53 @@ def species(I, name, phase='G', cat_site=None):
     return o
 
 
-def reaction(I, repo, qual, nr=2, npd=2, nts=1, extra=None, name='rxn', phases=None):
+def reaction(I, repo, qual, nr=2, npd=2, nts=1, extra=None, name='rxn', phases=None, ctor=None):
     ci = repo.cls(qual)
     D = I.D
     phases = phases or {}
     rs = [species(I, 'r%d' % i, phases.get('r%d' % i, 'G')) for i in range(nr)]
     ps = [species(I, 'p%d' % i, phases.get('p%d' % i, 'G')) for i in range(npd)]
     ts = [species(I, 't%d' % i, phases.get('t%d' % i, 'G')) for i in range(nts)]
-    attrs = {
-        '_reactants': ListV(rs), '_reactants_stoich': ListV([D.sym('nu_r%d' % i) for i in range(nr)]),
-        '_products': ListV(ps), '_products_stoich': ListV([D.sym('nu_p%d' % i) for i in range(npd)]),
-        '_transition_state': ListV(ts) if nts else None,
-        '_transition_state_stoich': ListV([D.sym('nu_t%d' % i) for i in range(nts)]) if nts else None,
-        'notes': None,
-    }
-    attrs.update(extra or {})
-    o = Obj(name, ci, attrs=attrs)
+    # through the public constructor: the names under which the class keeps its sides are its own business
+    kw = {'reactants': ListV(rs), 'reactants_stoich': ListV([D.sym('nu_r%d' % i) for i in range(nr)]),
+          'products': ListV(ps), 'products_stoich': ListV([D.sym('nu_p%d' % i) for i in range(npd)])}
+    if nts:
+        kw['transition_state'] = ListV(ts)
+        kw['transition_state_stoich'] = ListV([D.sym('nu_t%d' % i) for i in range(nts)])
+    kw.update(ctor or {})
+    o = I.construct(ci, [], kw, name=name)
+    if isinstance(o, Raised):
+        raise Unsupported('%s(...) raised %s for the model reaction' % (qual, o.exc))
+    o.closed = False        # attributes the constructor does not set stay generic symbols
+    o.attrs.update(extra or {})
     return o, rs, ps, ts
+
+
+def make_reaction(I, repo, qual, reactants, rstoich, products, pstoich, ts=None, tstoich=None, name='rxn', **ctor):
+    """a reaction object of class ``qual`` built by its own constructor from explicit sides"""
+    kw = {'reactants': ListV(list(reactants)), 'reactants_stoich': ListV(list(rstoich)),
+          'products': ListV(list(products)), 'products_stoich': ListV(list(pstoich))}
+    if ts:
+        kw['transition_state'] = ListV(list(ts))
+        kw['transition_state_stoich'] = ListV(list(tstoich))
+    kw.update(ctor)
+    o = I.construct(repo.cls(qual) if isinstance(qual, str) else qual, [], kw, name=name)
+    if isinstance(o, Raised):
+        raise Unsupported('%s(...) raised %s for the model reaction' % (qual, o.exc))
+    return o
+
+
+def get_public(I, obj, attr):
+    """obj.attr as a user reads it (through the class's property when there is one)"""
+    return Frame(I, obj.ci.module, {}, None, None).obj_attr(obj, attr)
+
+
+def set_public(I, obj, attr, value):
+    """obj.attr = value through the class's property setter when there is one"""
+    if I.repo.find_method(obj.ci, attr + '.setter', missing_ok=True):
+        I.call_method(obj, attr + '.setter', [value], {})
+    else:
+        obj.attrs[attr] = value
 
 
 def state_sum(I, species_list, stoich, method, kw, prod=False):
